@@ -123,6 +123,16 @@ def run_case(job):
                                                gammas=[lambda y1, y2, y3: np.sinh(y3)], lindblad_operators=[lop])
             jac = np.sqrt(1.0 + np.asarray(pars, dtype=float) ** 2)
             pars = np.arcsinh(np.asarray(pars, dtype=float))
+        elif mode == "numeric-4par":
+            # a fourth parameter that adds to the first one: the table of parameters is square for N = 2 (2N = M = 4);
+            # its rows are half steps and its columns parameters, whatever its shape
+            if shift != 0:
+                return []
+            system = oqupy.ParameterizedSystem(lambda x1, x2, g, x4: ham(x1 + x4, x2, g), gammas=[lambda x1, x2, g, x4: g],
+                                               lindblad_operators=[lambda x1, x2, g, x4: np.diag(zdiag)])
+            p3 = np.asarray(pars, dtype=float)
+            x4 = 0.0625 * (1 + np.arange(p3.shape[0]))
+            pars = np.column_stack([p3[:, 0] - x4, p3[:, 1], p3[:, 2], x4])
         elif mode == "numeric-lop":
             # the same physics with the parameter carried by the Lindblad OPERATOR instead of the rate:
             # 2 D[sqrt(g / 2) z] = g D[z]
@@ -185,6 +195,8 @@ def run_case(job):
     rho_f, tmat, grad = expected(case, rho0, target_fn)
     if variant["mode"] == "numeric-nonaffine":
         grad = grad * jac
+    if variant["mode"] == "numeric-4par":
+        grad = np.column_stack([grad, grad[:, 0]])
     got = np.array(res["gradient"])
     tol = 1e-9 if variant["mode"] == "supplied" else 2e-6
     scale = max(1.0, np.max(np.abs(grad)))
@@ -320,6 +332,8 @@ def run(ctx):
                 vs.append({"mode": "numeric", "target": "linear", "warmup": idx % 8 == 0})
             if not shifted and not case["ctl"] and (idx % (4 if quick else 2) == 2 % (4 if quick else 2)):
                 vs.append({"mode": "numeric-nonaffine", "target": "callable" if idx % 8 == 2 else "linear"})
+            if not shifted and not case["ctl"] and idx % (4 if quick else 2) == 3 % (4 if quick else 2):
+                vs.append({"mode": "numeric-4par", "target": "linear"})
             if not shifted and case["dephase"] and (idx % (4 if quick else 2) == 1):
                 vs.append({"mode": "numeric-lop", "target": "linear"})
             if len(case["edims"]) == 2 and idx % 3 == 0:
